@@ -192,6 +192,16 @@ def sanitize(module, snap=None, roundtrip=True, failure_path=False,
                     not any(True for _ in x.references) and \
                     not any(True for _ in x.incoming_edges) and \
                     not any(True for _ in x.outgoing_edges)
+
+            def zero_padding(x):
+                # ... and is a data block of zero bytes when nothing stands
+                # in front of it in its interval
+                bi_ = x.byte_interval
+                return snap is not None and id(x) not in snap.blocks and \
+                    isinstance(x, gtirb.DataBlock) and x.offset == 0 and \
+                    not any(True for _ in x.references) and \
+                    not any(bytes(bi_.contents[:x.size]))
+            others = [x for x in others if not zero_padding(x)]
             nxt = next((x for x in order[k + 1:]
                         if x.size and not padding(x)), None)
             prv = next((x for x in reversed(order[:k]) if x.size), None)
